@@ -375,6 +375,7 @@ func newSystem(w *world, mode *Mode) *System {
 //
 //	D<m>><p>  deliver message m to p            (default when it is the queue head)
 //	T<p>      time flows for everybody until p's alarm, which fires (default when the queue is empty)
+//	W0        time flows with no alarm pending: the messages held back arrive (default when nothing else is enabled)
 //	L<m>><p>  delay: move the queue head to the back
 //	H<m>><p>  hold: keep the queue head back until after the next timer event
 //	X<m>><p>  drop the queue head (safety modes only)
@@ -393,6 +394,8 @@ func (a action) String() string {
 	switch a.kind {
 	case 'P':
 		return "P0"
+	case 'W':
+		return "W0"
 	case 'T', 'E':
 		return fmt.Sprintf("%c%d", a.kind, a.to)
 	case 'B', 'A', 'F':
@@ -409,7 +412,7 @@ func parseAction(s string) (action, error) {
 	a := action{kind: s[0]}
 	rest := s[1:]
 	switch a.kind {
-	case 'P':
+	case 'P', 'W':
 		return a, nil
 	case 'T', 'E':
 		n, err := strconv.Atoi(rest)
@@ -470,11 +473,13 @@ func (s *System) defaultAction() (action, bool) {
 		d := s.queue[0]
 		return action{kind: 'D', msg: d.msg, to: d.to}, true
 	}
-	if len(s.held) > 0 {
-		// nothing else to do: a held message is released by the passage of time; handled in the timer.
-	}
 	if p, _, ok := s.nextTimer(); ok {
 		return action{kind: 'T', to: p}, true
+	}
+	if len(s.held) > 0 {
+		// nobody has a timer pending: time passes anyway, and what was held back arrives (a held message is late,
+		// never lost)
+		return action{kind: 'W'}, true
 	}
 	return action{}, false
 }
@@ -570,6 +575,16 @@ func (s *System) apply(a action) error {
 			s.queue = append(s.queue, s.parked...)
 		}
 		s.parked = nil
+		s.noteStabilisation()
+	case 'W':
+		if len(s.queue) != 0 || len(s.held) == 0 {
+			return fmt.Errorf("W not enabled")
+		}
+		if _, _, ok := s.nextTimer(); ok {
+			return fmt.Errorf("W not enabled")
+		}
+		s.queue = append(s.queue, s.held...)
+		s.held = nil
 		s.noteStabilisation()
 	case 'D', 'J':
 		if a.kind == 'D' && (len(s.queue) == 0 || s.queue[0] != d) {
